@@ -88,3 +88,23 @@ def readCol (pinf ninf : Rat) (isInt : Bool) (rs : List Rec) : Rat × Rat :=
   fillIn pinf ninf isInt (rs.foldl (apply pinf ninf) {})
 
 end Qsx.MpsBounds
+
+namespace Qsx.MpsRanges
+open Qsx
+
+/-- the writer (mps.c:1159-1245): a ranged row goes out as a `G` row with a RANGES record -/
+def writeRow (sense : Char) (rhs range : Rat) : Char × Rat × Option Rat :=
+  if sense = 'R' then ('G', rhs, some range) else (sense, rhs, none)
+
+/-- the reader (`transferRanges`, rawlp.c:1271-1337): sense, rhs and range of the stored row, which
+always means `rhs ≤ row ≤ rhs + range` when the sense is 'R' -/
+def readRow (sense : Char) (rhs : Rat) (r : Option Rat) : Char × Rat × Rat :=
+  match r with
+  | none => (sense, rhs, 0)
+  | some r =>
+    if sense = 'G' then ('R', rhs, if r < 0 then -r else r)
+    else if sense = 'L' then ('R', rhs - (if r < 0 then -r else r), if r < 0 then -r else r)
+    else if sense = 'E' then (if r < 0 then ('R', rhs + r, -r) else ('R', rhs, r))
+    else (sense, rhs, 0)
+
+end Qsx.MpsRanges
